@@ -50,6 +50,28 @@ theorem path_wins (body : Msg) (query pre post : List P) (p : P) (hs : p.repeate
   rw [← List.append_assoc]
   exact last_write_wins body (query ++ pre) post p hs hpost
 
+/-- **… on every stream transport, with or without a body mapping**: the first message a
+WebSocket or HTTP-stream handler receives carries the captured value whether the rule maps a
+body (the first frame is decoded, then the URL parameters are applied on top) or not (the
+message is the URL alone) — `streamWS.RecvMsg` and `streamHTTP.RecvMsg` apply the parameters
+outside their `hasBody` blocks (regenerated). -/
+theorem path_wins_on_streams (hasBody : Bool) (frame : Msg) (query pre post : List P) (p : P)
+    (hs : p.repeated = false) (hpost : ∀ q ∈ post, q.fp ≠ p.fp) :
+    (recvFirst Gen.wsParamsOutsideBody Gen.pathParamsLast hasBody frame query (pre ++ p :: post)).get p.fp = [p.val] ∧
+    (recvFirst Gen.httpParamsOutsideBody Gen.pathParamsLast hasBody frame query (pre ++ p :: post)).get p.fp = [p.val] := by
+  have h1 := path_wins frame query pre post p hs hpost
+  have h2 := path_wins [] query pre post p hs hpost
+  cases hasBody <;> simp only [recvFirst, Gen.wsParamsOutsideBody, Gen.httpParamsOutsideBody, if_true] <;>
+    first | exact ⟨h1, h1⟩ | exact ⟨h2, h2⟩ | (simp only [Bool.false_eq_true, if_false]; exact ⟨h2, h2⟩)
+
+/-- the parameters are applied to the first message only (regenerated guards): the model's
+`recvFirst` is the only place they enter. -/
+theorem params_first_message_only : Gen.wsParamsFirstOnly = true ∧ Gen.httpParamsFirstOnly = true := by decide
+
+/-- contrast: applied INSIDE the body block, a rule without a body loses the capture. -/
+theorem inside_body_block_loses_capture :
+    (recvFirst false true false [] [] [⟨1, false, [112]⟩]).get 1 = [] := by decide
+
 /-- the theorem really depends on the order read from the source: with the path captures
 applied first, a query parameter replaces the capture. -/
 theorem order_matters :
@@ -64,4 +86,7 @@ end Larking.Props.C07
 #print axioms Larking.Props.C07.translator_complete
 #print axioms Larking.Props.C07.skeleton_unchanged
 #print axioms Larking.Props.C07.path_wins
+#print axioms Larking.Props.C07.path_wins_on_streams
+#print axioms Larking.Props.C07.params_first_message_only
+#print axioms Larking.Props.C07.inside_body_block_loses_capture
 #print axioms Larking.Props.C07.order_matters
